@@ -217,6 +217,7 @@ class TaskSetBase {
         pool_.numRings_.load(std::memory_order_relaxed) >= count &&
         !detail::PerPoolPerThreadInfo::isPoolRecursive(&pool_) &&
         outstandingTaskCount_.load(std::memory_order_relaxed) <= taskSetLoadFactor_) {
+      DISPENSO_VERIF_HOOK(1); // ring fast path chosen from the pool size / ring count just read
       outstandingTaskCount_.fetch_add(static_cast<ssize_t>(count), std::memory_order_acquire);
       pool_.scheduleBulkToRings(
           count, [this, &gen](size_t j) { return packageTaskNoIncrement(gen(j)); }, token);
